@@ -241,6 +241,29 @@ def try_edges(body, cb):
         arms = {a[0]: a[1] for a in body.term(sw)['arms']}
         if 0 in arms and 1 in arms:
             out.append((sw, arms[0], arms[1]))
+    # the spelled-out form of `?`: `match r { Ok(v) => v, Err(e) => return Err(..) }` / `if let Err(e) = r { return Err(e) }` - a switch on the
+    # discriminant of the (possibly awaited) Result whose Err edge cannot come back to the Ok continuation
+    for sw in range(body.n):
+        if body.is_cleanup(sw) or body.term(sw)['k'] != 'switch' or any(sw == o[0] for o in out):
+            continue
+        info = body.switch_info(sw)
+        if not info or info.get('kind') != 'discr' or (info['place'].get('p') or []) != []:
+            continue
+        ty = info['place'].get('ty') or ''
+        if not ty.startswith(('std::result::Result<', 'core::result::Result<')):
+            continue
+        locs, events = body.slice_back([info['place']['l']])
+        if not any(ev[0] == 'call' and ev[1] == cb for ev in events):
+            continue
+        if any(ev[0] == 'call' and ev[2]['callee'].get('name') == 'branch' and 'Try' in (ev[2]['callee'].get('trait') or '') for ev in events):
+            continue
+        ok_t = info['arms'].get(0, info['otherwise'])
+        err_t = info['arms'].get(1, info['otherwise'])
+        if ok_t is None or err_t is None or ok_t == err_t:
+            continue
+        if ok_t in body.reachable(err_t, avoid={sw, cb}):
+            continue
+        out.append((sw, ok_t, err_t))
     return out
 
 
